@@ -47,18 +47,27 @@ func allMessages(fd protoreflect.FileDescriptor) []protoreflect.MessageDescripto
 }
 
 // loadSchemas returns one schemaInfo per linked set (checked-in packages included).
-func loadSchemas() []*schemaInfo { return loadSchemasSel(false) }
+func loadSchemas() []*schemaInfo { return loadSchemasOpt(false, false) }
+
+// progOnlySets: linked sets that exist for the class coverage of the translator ties (classcov.go, corpus.ClassCov: every map key x
+// value combination, every key width per shape, types of another Go package in every position). Only the six *prog engines load
+// them (loadSchemasProg): their value-level engines would pay for 190 more fields on every run without seeing a new code path of
+// the runtime — the classes differ in what the TEMPLATES print, which is what the program comparison looks at.
+var progOnlySets = map[string]bool{"vc": true}
+
+func loadSchemasProg() []*schemaInfo { return loadSchemasOpt(false, true) }
+func loadSchemasSel(withModelFree bool) []*schemaInfo { return loadSchemasOpt(withModelFree, false) }
 
 // modelFreeSets: linked sets the codec / reflection models have no shapes for (vq: messages of an imported proto2 type with
 // explicit-presence scalars and required fields). Only engines that compare implementations with each other, without the
 // extracted model (lib), load them: loadSchemasSel(true).
 var modelFreeSets = map[string]bool{"vq": true}
 
-func loadSchemasSel(withModelFree bool) []*schemaInfo {
+func loadSchemasOpt(withModelFree, withProgOnly bool) []*schemaInfo {
 	names := append([]string{"testpb", "test3"}, linkedSets...)
 	var out []*schemaInfo
 	for _, n := range names {
-		if modelFreeSets[n] && !withModelFree {
+		if modelFreeSets[n] && !withModelFree || progOnlySets[n] && !withProgOnly {
 			continue
 		}
 		var roots []protoreflect.MessageDescriptor
